@@ -63,6 +63,37 @@ pub fn cases(args: &[String]) {
                 }
             }
         },
+        // all k-multisets over {52 deck cards, blank} (non-decreasing alphabet index), op prefix --op
+        "multisets" => {
+            let k: usize = arg(args, "--k").unwrap().parse().unwrap();
+            let op = arg(args, "--op").unwrap();
+            let mut alpha: Vec<u32> = deck.to_vec();
+            alpha.push(0);
+            let n = alpha.len();
+            let mut idx = vec![0usize; k];
+            let mut c = 0usize;
+            loop {
+                if c % stride == offset {
+                    write!(w, "{op}").unwrap();
+                    for i in &idx {
+                        write!(w, " {}", alpha[*i]).unwrap();
+                    }
+                    writeln!(w).unwrap();
+                }
+                c += 1;
+                let mut i = k;
+                while i > 0 && idx[i - 1] == n - 1 {
+                    i -= 1;
+                }
+                if i == 0 {
+                    break;
+                }
+                idx[i - 1] += 1;
+                for j in i..k {
+                    idx[j] = idx[i - 1];
+                }
+            }
+        },
         _ => {
             eprintln!("unknown case family {fam}");
             std::process::exit(2);
